@@ -57,8 +57,16 @@ class Hist:
         if size is None:
             size = r.choice([5, 6, 7, 20, 100, 4090, 4095, 4096, 4097, 8191, 8192, 8193, r.randrange(5, 9000)])
         size = max(size, 7)
-        if kind in ("vsh_same", "ash_same") :
-            base = kind[:3]
+        if kind.startswith("ehx:"):
+            # enhanced-rtmp video message with an arbitrary first byte (frame type / packet type sweep)
+            b0 = int(kind[4:], 16)
+            body = (EHEVC_SH[1:] if b0 & 15 == 0 else b"hvc1")
+            tok = self.payload(bytes([b0]) + body, len(body) + 3 if b0 & 15 == 0 else max(size, 12))
+            self.ev.append("P:9:%d:%s" % (ts, tok))
+            self.n += 1
+            return
+        if kind.endswith("_same"):
+            base = kind[:-5]
             if base in self.last_tok:
                 t, tok = self.last_tok[base]
                 self.uniq += 1
@@ -96,7 +104,7 @@ class Hist:
             tok = self.payload(head, len(head) + 2)
         else:
             tok = self.payload(head, size if kind not in ("meta", "meta_sdf", "meta_bad") else min(size, 300) + len(head))
-        if kind in ("vsh", "ash"):
+        if kind in ("vsh", "ash", "hvsh", "ehvsh"):
             self.last_tok[kind] = (t, tok)
         self.ev.append("P:%d:%d:%s" % (t, ts, tok))
         self.n += 1
@@ -433,6 +441,10 @@ STREAMS = {
     "g711": ["g711", "g711", "g711", "g711", "g711"],
     "hevc": ["meta", "hvsh", "hkey", "hinter", "aac", "hinter", "hkey", "hinter"],
     "ehevc": ["ehvsh", "ehkey", "ehinter", "ehinter", "ehkey", "ehinter"],
+    # enhanced-rtmp HEVC with its sequence header repeated / changed in the middle of a GOP (a waiting joiner must keep waiting)
+    "hdrsame_eh": ["ehvsh", "ehkey", "ehinter", "ehvsh_same", "ehinter", "ehinter", "ehkey", "ehinter", "ehvsh_same", "ehinter", "ehkey"],
+    "hdrchange_eh": ["meta", "ehvsh", "ash", "ehkey", "aac", "ehinter", "ehvsh", "ehinter", "aac", "ehinter", "ehkey", "ehinter", "ehvsh_same", "ehinter"],
+    "hdrsame_h": ["hvsh", "hkey", "hinter", "hvsh_same", "hinter", "hkey", "hinter", "hvsh", "hinter"],
     "nokey": ["vsh", "inter", "inter", "aac", "inter", "inter"],
     "hdrchange": ["meta", "vsh", "ash", "key", "aac", "inter", "vsh", "inter", "key", "inter", "ash", "aac", "meta", "inter", "key"],
     "hdrsame": ["vsh", "ash", "key", "inter", "vsh_same", "ash_same", "key", "inter", "aac", "vsh_same", "inter"],
@@ -562,7 +574,35 @@ WAIT_SCENARIOS = {
     "hevc": ["hvsh", "hkey", "hinter", "J", "hvsh", "hinter", "ash", "meta", "hkey", "hinter"],
     "audio-header": ["vsh", "ash", "key", "J", "aac", "ash", "aac", "ash_same", "inter", "key", "aac"],
     "never-key": ["vsh", "J", "inter", "meta", "vsh", "ash", "inter", "aac", "vsh"],
+    # enhanced-rtmp HEVC: the sequence header (first byte 0x90: frame type "key", packet type SequenceStart) repeated and
+    # changed while the joiners wait - it is a header, not a key frame (seed C02r6-1)
+    "enhanced-hevc": ["ehvsh", "ehkey", "ehinter", "J", "ehvsh_same", "ehinter", "ehvsh", "ehinter", "ash", "J", "ehvsh_same", "ehinter", "ehkey", "ehinter"],
 }
+
+
+def gen_enhanced_sweep(tier, rng):
+    """every enhanced-rtmp first byte 0x80 | frame type << 4 | packet type (frame types 0..7, packet types 0..5 and 15)
+    offered to players that wait for a key frame (joined mid-GOP, nothing cached / one GOP cached), before and after
+    the message: does it end their wait?"""
+    for gop in (0, 1):
+        for ft in range(8):
+            for pt in (0, 1, 2, 3, 4, 5, 15):
+                c = dict(re=1, rg=gop, rm=0, fe=1, fg=gop, fm=0, tg=0, tm=0, mw=0, rec=0)
+                h = Hist(rng, c)
+                h.start(pat=False)
+                h.pub("ehvsh", ts=0)
+                if gop == 0:
+                    h.pub("ehkey", ts=40)
+                h.pub("ehinter", ts=80)
+                for k in ("r", "f", "w"):
+                    h.join(k)
+                h.pub("ehinter", ts=120)
+                h.pub("ehx:%02x" % (0x80 | ft << 4 | pt), ts=160)
+                h.pub("ehinter", ts=200)
+                h.pub("aac", ts=210)
+                h.pub("ehkey", ts=240)
+                h.pub("ehinter", ts=280)
+                yield Case(h.line(), cls="enhanced-sweep")
 
 
 def gen_wait_histories(tier, rng, counts=(1, 2, 3)):
